@@ -3,6 +3,6 @@
 cd "$(dirname "$0")" || exit 2
 set -e
 PY=/opt/veriftools/pyvenv/bin/python3
-$PY -m vlib.build ensure fast san
+$PY -m vlib.build ensure fast san tsan
 [ -x tools/build_harness.sh ] && tools/build_harness.sh || true
 echo setup done
